@@ -1117,6 +1117,10 @@ func (v *FnView) rejectsWhen(scope ast.Node, pred0 func(Fact) bool, allowed0 fun
 				if len(fs) == 0 {
 					extra = true
 				}
+				// a conjunct that yields no fact (a parenthesised disjunction, say) still narrows the rejection
+				if truth && len(fs) < len(conjuncts(x.Cond)) {
+					extra = true
+				}
 				for _, f := range fs {
 					switch {
 					case pred(f):
